@@ -110,6 +110,7 @@ std::string print_stmt(const json& s, int n) {
   if (k == "import") return ind(n) + "import " + s["n"].get<std::string>() + ";\n";
   if (k == "rawstmt") return ind(n) + s["v"].get<std::string>() + "\n";
   if (k == "expect_parse_error") return ind(n) + s["v"].get<std::string>() + "\n";
+  if (k == "may_be_rejected") return "";
   return ind(n) + "/*?" + k + "*/;\n";
 }
 
